@@ -77,6 +77,11 @@ def build_template(name, d):
         names = sorted(set(r["name"] for r in w["reads"]))
         keep = set(names[::2])
         syn.write_bam(w, os.path.join(d, "reads_a.bam"), reads=[r for r in w["reads"] if r["name"] in keep], seqs=seqs)
+        # ... and with another annotation of the same file name (an older release in another folder: the second isoform of every gene is
+        # missing), so the database it left in the output folder has the name the new run's database will get
+        os.makedirs(os.path.join(d, "alt"), exist_ok=True)
+        w_alt = dict(w, genes=[dict(g, transcripts=g["transcripts"][:1]) for g in w["genes"]])
+        syn.write_gtf(w_alt, os.path.join(d, "alt", "annot.gtf"))
     if "GZ_GTF" in extra:
         import gzip
         with open(os.path.join(d, "annot.gtf"), "rb") as fi, gzip.open(os.path.join(d, "annot.gtf.gz"), "wb") as fo:
@@ -109,7 +114,8 @@ def earlier_argv(d, extra):
     """the complete earlier run of the stale-folder world: other reads, other options, intermediate files kept"""
     a = argv_for(d, [x for x in extra if x != "STALE"] + ["--keep_tmp", "--transcript_quantification", "all", "--gene_quantification", "all",
                                                           "--read_group", "read_id:_"])
-    return [os.path.join(d, "reads_a.bam") if x == os.path.join(d, "reads.bam") else x for x in a]
+    sub = {os.path.join(d, "reads.bam"): os.path.join(d, "reads_a.bam"), os.path.join(d, "annot.gtf"): os.path.join(d, "alt", "annot.gtf")}
+    return [sub.get(x, x) for x in a]
 
 
 def out_tree(d):
